@@ -1,5 +1,6 @@
 import GaleneVerif.Model.PacketMap
 import GaleneVerif.Engine.Common
+import GaleneVerif.Engine.Params
 /-
 Engine `pmap`: packetmap.Map public API (C01, C03, picture-id part of C02).
 Ops:
@@ -26,10 +27,10 @@ structure Orc where
 
 structure St where
   m : State := {}
-  P : Params := {}
+  P : Params := pmParams
   orc : Orc := {}
 
-def W : Nat := 8192
+def W : Nat := pmParams.W
 
 /-- number of withheld packets below `u` (D is newest first, so scanning stops early) -/
 def below (o : Orc) (u : Nat) : Nat := o.nD - (o.D.takeWhile (· ≥ u)).length
